@@ -346,7 +346,7 @@ func (cmd *mainCmd) Run(args []string) error {
 			cmd.printComments(sourcePath.Provided, comments)
 			_, err = cmd.Stdout.Write(bs)
 		default:
-			err = os.WriteFile(filename, bs, 0o644)
+			err = writeFileAtomic(filename, bs)
 		}
 		if err != nil {
 			log.Printf("%s: failed: %v", filename, err)
@@ -358,6 +358,39 @@ func (cmd *mainCmd) Run(args []string) error {
 
 	errors = append(errors, patchRunner.errors...)
 	return multierr.Combine(errors...)
+}
+
+// writeFileAtomic replaces the contents of filename with data. The data is
+// written to a temporary file in the same directory which is then renamed
+// over the original, so a write that fails or is interrupted never leaves a
+// truncated or partially written source file behind.
+func writeFileAtomic(filename string, data []byte) (err error) {
+	perm := os.FileMode(0o644)
+	if info, statErr := os.Stat(filename); statErr == nil {
+		perm = info.Mode().Perm()
+	}
+
+	tmp, err := os.CreateTemp(filepath.Dir(filename), "."+filepath.Base(filename)+".*.tmp")
+	if err != nil {
+		return err
+	}
+	defer func() {
+		if err != nil {
+			_ = tmp.Close()
+			_ = os.Remove(tmp.Name())
+		}
+	}()
+
+	if _, err = tmp.Write(data); err != nil {
+		return err
+	}
+	if err = tmp.Chmod(perm); err != nil {
+		return err
+	}
+	if err = tmp.Close(); err != nil {
+		return err
+	}
+	return os.Rename(tmp.Name(), filename)
 }
 
 func checkGeneratedCode(f *ast.File) bool {
